@@ -31,8 +31,8 @@ CONSTANTS PatAtoms, PatUnaries, PatBinaries,   \* patterns: atoms, quantified at
           PatDepth,                            \* 0..2
           SubjChars, MaxLen
 
-VARIABLES r, s, nullable, found, adm
-vars == <<r, s, nullable, found, adm>>
+VARIABLES r, s, nullable, found, adm, ginfo
+vars == <<r, s, nullable, found, adm, ginfo>>
 
 P0 == {Atom(n) : n \in PatAtoms}
 P1 == P0 \cup {Wrap(u, a) : u \in PatUnaries, a \in P0}
@@ -81,11 +81,26 @@ Join(toks, sep, q) == IF q > Len(toks) THEN <<>>
 
 AdmSet(str, sp) == {[parts |-> p, tokens |-> Tokens(str, p)] : p \in {x \in PartSeqs(0, Len(str)) : Admissible(x, sp, Len(str))}}
 
+(* ---- capturing groups -------------------------------------------------------
+   The groups of the pattern in the order of their opening parenthesis.  For each one: the number of the
+   group that encloses it (0 = none) and the spans of the input that its body matches IN CONTEXT.  A
+   fn:group element of fn:analyze-string must carry the number of a group, be nested in the element of the
+   enclosing group only, and have as string value a substring whose span is one of these. *)
+RECURSIVE GroupsOf(_, _, _)
+GroupsOf(x, par, off) ==
+  CASE x.t \in {"grp", "dup"} -> <<[body |-> x.r, parent |-> par]>> \o GroupsOf(x.r, off + 1, off + 1)
+    [] x.t \in {"cat", "alt"} -> LET gl == GroupsOf(x.l, par, off) IN gl \o GroupsOf(x.r, par, off + Len(gl))
+    [] x.t \in {"star", "plus", "opt", "rep"} -> GroupsOf(x.r, par, off)
+    [] OTHER -> <<>>
+GInfo(x, str) == LET gs == GroupsOf(x, 0, 0) IN
+                 [n \in 1..Len(gs) |-> [parent |-> gs[n].parent, spans |-> Spans(gs[n].body, str)]]
+
 Init == /\ r \in Patterns
         /\ s = <<>>
         /\ nullable = FullMatch(r, <<>>)
         /\ found = nullable
         /\ adm = IF nullable THEN {} ELSE {[parts |-> <<>>, tokens |-> <<>>]}
+        /\ ginfo = GInfo(r, <<>>)
 
 Feed(c) ==
   /\ Len(s) < MaxLen
@@ -93,6 +108,7 @@ Feed(c) ==
   /\ LET sp == TLCEval(Spans(r, s')) IN
        /\ found' = (sp # {})
        /\ adm' = IF nullable THEN {} ELSE AdmSet(s', sp)
+  /\ ginfo' = IF nullable THEN <<>> ELSE GInfo(r, s')
   /\ UNCHANGED <<r, nullable>>
 
 Next == \E c \in SubjChars : Feed(c)
@@ -121,5 +137,10 @@ MatchesLaw  == ~nullable => /\ \A a \in adm : found = (MatchParts(a.parts) # <<>
 (* all admissible partitions start their first match at the same (leftmost) position *)
 LeftmostLaw == \A a \in adm, b \in adm :
                  (MatchParts(a.parts) # <<>>) => MatchParts(a.parts)[1][2] = MatchParts(b.parts)[1][2]
-Laws == ExistsLaw /\ ConcatLaw /\ ReplaceIdLaw /\ TokenizeLaw /\ ReplaceJoinLaw /\ MatchesLaw /\ LeftmostLaw
+(* groups: the enclosing group has a smaller number; a pattern that IS a group captures exactly its matches;
+   inside a match every group span lies within some span of the enclosing group *)
+GroupLaw == /\ \A n \in 1..Len(ginfo) : ginfo[n].parent < n
+            /\ (~nullable /\ r.t = "grp") => ginfo[1].spans = Spans(r, s)
+            /\ \A n \in 1..Len(ginfo) : \A sp \in ginfo[n].spans : sp[1] <= sp[2] /\ sp[2] <= Len(s)
+Laws == GroupLaw /\ ExistsLaw /\ ConcatLaw /\ ReplaceIdLaw /\ TokenizeLaw /\ ReplaceJoinLaw /\ MatchesLaw /\ LeftmostLaw
 =============================================================================
